@@ -1,4 +1,5 @@
-/-! Driver executable for family `alphutil` — placeholder until the family is built. -/
+import Whv.Driver.AlphUtil
+/-! Driver executable for family `alphutil` (C11): case lines on stdin, verdict lines on stdout. -/
 def main : IO UInt32 := do
-  IO.eprintln "family not built"
-  return 2
+  Whv.Driver.AlphUtilFam.run (← IO.getStdin)
+  return 0
